@@ -774,6 +774,53 @@ func nestedReaderCase(out *bufio.Writer, k Kind, rep bool, field int32, data []b
 		res = fmt.Sprintf("pf=%d rem=%d err=%s val=%s pf2=%d rem2=%d err2=%s", pf, rem, es, valsString(cur), pf2, rem2, es2)
 	}()
 	fmt.Fprintf(out, "nreader\t%s\t%d\t%d\tx%s\t%s\t%d\t%s\n", k, b2i(rep), field, hex.EncodeToString(outer), valsString(init), wrap, res)
+	// the same reader 5, 9 and 17 messages deep (where a decoder's state stack would outgrow an inline array or be
+	// reallocated): what comes back at the top is what comes back from one level - the depth-1 row above is the one
+	// compared with the model
+	if wrap == 0 && len(data)%3 == 0 && !strings.HasPrefix(res, "PANIC") {
+		first := res
+		if i := strings.Index(first, " pf2="); i >= 0 {
+			first = first[:i]
+		}
+		for _, depth := range []int{5, 9, 17} {
+			payload := append([]byte{}, data...)
+			for l := 0; l < depth; l++ {
+				w := protowire.AppendVarint(nil, 9<<3|2)
+				w = protowire.AppendVarint(w, uint64(len(payload)))
+				payload = append(w, payload...)
+			}
+			deepIn := append(payload, 0x38, 0x01, 0x40, 0x05)
+			deep := ""
+			func() {
+				defer func() {
+					if r := recover(); r != nil {
+						deep = "PANIC"
+					}
+				}()
+				dec := picobuf.NewDecoder(append([]byte{}, deepIn...))
+				dec.VerifInit()
+				cur := init
+				var down func(level int) func(c *picobuf.Decoder)
+				down = func(level int) func(c *picobuf.Decoder) {
+					return func(c *picobuf.Decoder) {
+						if level == 0 {
+							cur = callReader(c, k, rep, field, cur)
+							return
+						}
+						c.Message(9, down(level-1))
+					}
+				}
+				dec.Message(9, down(depth-1))
+				pf, _, rem := dec.VerifState()
+				es := "-"
+				if ef, em, ok := dec.VerifErrField(); ok {
+					es = fmt.Sprintf("%d:%s", ef, errClassOf(em))
+				}
+				deep = fmt.Sprintf("pf=%d rem=%d err=%s val=%s", pf, rem, es, valsString(cur))
+			}()
+			fmt.Fprintf(out, "dreader\t%s\t%d\t%d\tx%s\t%s\t%d\t%s\t%s\n", k, b2i(rep), field, hex.EncodeToString(data), valsString(init), depth, deep, first)
+		}
+	}
 }
 
 func init() {
@@ -800,6 +847,28 @@ func init() {
 				writerCase(out, k, always, true, fields[int(k)%len(fields)], nil, nil)
 				for i, v := range alpha {
 					writerCase(out, k, always, true, fields[(i+3)%len(fields)], []*Val{v}, prefixes[i%len(prefixes)])
+				}
+				// uniform lists whose packed payload straddles the one-byte / two-byte length boundary (127/128 bytes) for
+				// every element size the kind has: counts that are neither powers of two nor round
+				if k != KBytes && k != KString {
+					seen := map[int]bool{}
+					for i, v := range alpha {
+						size := len(refPayload(k, v))
+						if size == 0 || seen[size] && i%4 != 0 {
+							continue
+						}
+						seen[size] = true
+						for _, n := range []int{127 / size, 127/size + 1, 128/size + 1} {
+							if n < 1 {
+								continue
+							}
+							vs := make([]*Val, n)
+							for j := range vs {
+								vs[j] = v
+							}
+							writerCase(out, k, always, true, fields[(i+n)%len(fields)], vs, prefixes[(i+n)%len(prefixes)])
+						}
+					}
 				}
 				nl := 12
 				if thorough {
